@@ -78,13 +78,14 @@ def prescanAux : Nat → Bytes → Nat → Bool → Nat → Nat → Nat × Nat
     else
       match parse rest with
       | none => (fpos, rpos)
-      | some (.savepoint, adv) =>
-        if rest.length < sz_WBSAVEPOINT then (fpos, rpos)
-        else prescanAux fuel (rest.drop adv) (pos + adv) false pos rpos
-      | some (.reset, adv) =>
-        if rest.length < sz_WBRESET then (fpos, rpos)
-        else prescanAux fuel (rest.drop adv) (pos + adv) false fpos pos
-      | some (_, adv) => prescanAux fuel (rest.drop adv) (pos + adv) false fpos rpos
+      | some (r, adv) =>
+        if r = .savepoint then
+          if rest.length < sz_WBSAVEPOINT then (fpos, rpos)
+          else prescanAux fuel (rest.drop adv) (pos + adv) false pos rpos
+        else if r = .reset then
+          if rest.length < sz_WBRESET then (fpos, rpos)
+          else prescanAux fuel (rest.drop adv) (pos + adv) false fpos pos
+        else prescanAux fuel (rest.drop adv) (pos + adv) false fpos rpos
 
 def prescan (w : Bytes) : Nat × Nat := prescanAux w.length w 0 true 0 0
 
@@ -168,9 +169,9 @@ def replayAux (cfg : Cfg) (stop : Nat) : Nat → Bytes → Nat → Bool → Byte
       | some (r, adv) =>
         if r = .savepoint ∧ stop = pos then ⟨.ok, m⟩
         else
-          match apply cfg r rest m with
-          | (.ok, m') => replayAux cfg stop fuel (rest.drop adv) (pos + adv) false m'
-          | (rc, m') => ⟨rc, m'⟩
+          let (rc, m') := apply cfg r rest m
+          if rc = .ok then replayAux cfg stop fuel (rest.drop adv) (pos + adv) false m'
+          else ⟨rc, m'⟩
 
 def replay (cfg : Cfg) (stop : Nat) (w : Bytes) (m : Bytes) : Out := replayAux cfg stop w.length w 0 true m
 
